@@ -108,6 +108,12 @@ func synAlphabet() []synIns {
 		{"cpustate w:=1", []expr.Effect{rs("w", c(1))}, model.TypeCPUStateChange},
 		{"x:=a", []expr.Effect{rs("x", r("a"))}, 0},
 		{"y,z:=m2[y],1", []expr.Effect{rs("y", ml("m2", r("y"))), rs("z", c(1))}, 0},
+		// registers and memory spaces are separate name spaces: a register called like a memory
+		// space and a memory space called like a register must not be confused
+		{"reg m1:=1", []expr.Effect{rs("m1", c(1))}, 0},
+		{"zz:=reg m2", []expr.Effect{rs("zz", r("m2"))}, 0},
+		{"mem a[aa]:=bb", []expr.Effect{ms("a", r("aa"), r("bb"))}, 0},
+		{"cc:=mem a[dd]", []expr.Effect{rs("cc", ml("a", r("dd")))}, 0},
 	}
 }
 
@@ -249,7 +255,7 @@ func c06Alphabet() []uint32 {
 
 func init() {
 	checks["C06"] = eng.Check{
-		Rule:        "every ordered pair over a 40-word alphabet covering every instruction class (ALU reg/imm, lui/auipc, W-ops, loads, stores, AMOs, LR/SC, fence, fence.i, ecall, ebreak, CSR, pseudo-jumps, real jumps, x0 destinations) placed adjacent with prefix in {none, nop, a writer of x1} and suffix in {none, nop nop, terminating jump + pad}; plus every adjacent pair of the C05 block space; plus every ordered pair over 17 SYNTHETIC instructions with effect shapes the RISC-V front end never produces (two stores into one / two memory spaces, two register writes, loads from two spaces, load+store of one space, effect-free typed instructions) in 4 contexts. An independent walker over the front end's lifted effects decides the property's literal antecedent (no shared register incl. ip, no shared memory space with a writer, neither syscall/CPU-state, no memory-ordering instruction paired with an access or another ordering instruction, later one not the terminating jump); then Move(i,i+1) and Move(i+1,i), each on a fresh real code, must be accepted. Non-trivial = pair satisfying the antecedent.",
+		Rule:        "every ordered pair over a 40-word alphabet covering every instruction class (ALU reg/imm, lui/auipc, W-ops, loads, stores, AMOs, LR/SC, fence, fence.i, ecall, ebreak, CSR, pseudo-jumps, real jumps, x0 destinations) placed adjacent with prefix in {none, nop, a writer of x1} and suffix in {none, nop nop, terminating jump + pad}; plus every adjacent pair of the C05 block space; plus every ordered pair over 21 SYNTHETIC instructions with effect shapes the RISC-V front end never produces (two stores into one / two memory spaces, two register writes, loads from two spaces, load+store of one space, effect-free typed instructions, registers named like memory spaces and memory spaces named like registers) in 4 contexts. An independent walker over the front end's lifted effects decides the property's literal antecedent (no shared register incl. ip, no shared memory space with a writer, neither syscall/CPU-state, no memory-ordering instruction paired with an access or another ordering instruction, later one not the terminating jump); then Move(i,i+1) and Move(i+1,i), each on a fresh real code, must be accepted. Non-trivial = pair satisfying the antecedent.",
 		Assumptions: []string{"instruction facts are recomputed from riscv.Parse effects, not read from deps"},
 		Run: func(r *eng.Run) {
 			alpha := c06Alphabet()
